@@ -99,6 +99,23 @@ Definition selected (i : fmtid) : list N :=
 Definition bottom_up (i : fmtid) : bool :=
   match i with PPM | PGM => true | _ => false end.
 
+(* component c of the pixel in row r, column x of the w-wide input (pixels stored row by row,
+   f_pixcomp components each) *)
+Definition pix (i : fmtid) (w : N) (inp : list N) (r x c : N) : N :=
+  nth (N.to_nat ((r * w + x) * f_pixcomp (fmt_of i) + c)) inp 0.
+
+(* what a correct file of format i for the w x h image inp decodes to: file row y is input row
+   h-1-y for the bottom-up formats and row y otherwise; per pixel the selected channels *)
+Definition expected (i : fmtid) (w h : N) (inp : list N) : list N :=
+  flat_map (fun y =>
+    flat_map (fun x => map (fun c => pix i w inp (if bottom_up i then h - 1 - y else y) x c) (selected i))
+             (countN w))
+    (countN h).
+
+(* every component fits sizeof(COMP_T) bytes *)
+Definition comps_fit (i : fmtid) (inp : list N) : Prop :=
+  Forall (fun v => v < 256 ^ N.of_nat (f_csize (fmt_of i))) inp.
+
 (* ------------------------------------------------------------- JSON recogniser *)
 (* Recognises JSON texts built from objects, arrays, strings without escape sequences
    and numbers (leading zeros tolerated); true/false/null are not recognised.  Every
@@ -249,3 +266,39 @@ Fixpoint no_stray_end (d : nat) (l : list tev) : bool :=
 (* the events of thread number tid among the emitted objects *)
 Definition events_of_tid (tid : N) (objs : list jobj) : list tev :=
   flat_map (fun o => match o with JEvent _ t e => if t =? tid then [e] else [] | _ => [] end) objs.
+
+(* -------------------------------------------------------- what the theorems ask of the input *)
+(* a text that can stand unescaped between quotes *)
+Definition text_ok (s : str) : Prop := forallb str_char_ok s = true.
+
+(* what the theorems ask of the recorded texts: no quote, backslash or control character in
+   names / categories (saveLog does no escaping), and the printed cpuUtilization of an end
+   event is a JSON number *)
+Definition ev_ok (e : tev) : Prop :=
+  text_ok (e_name e) /\
+  (forall c, e_cat e = Some c -> text_ok c) /\
+  (e_kind e = KEnd -> is_number (e_util e) = true).
+
+Definition obj_ok (o : jobj) : Prop :=
+  match o with
+  | JProc _ p => text_ok p
+  | JThread _ _ n => text_ok n
+  | JEvent _ _ e => ev_ok e
+  | JUtil _ _ _ u => is_number u = true
+  end.
+
+(* the builtin counter saveLog adds after the END e of an interval opened by b when it is long *)
+Definition util_of pid tid (b e : tev) : list jobj :=
+  if is_long b e then [JUtil pid tid (e_ts b) (e_util e)] else [].
+
+Definition thread_ok (t : thread) : Prop := text_ok (t_name t) /\ Forall (Forall ev_ok) (t_events t).
+
+(* no END without an open BEGIN in the thread's recording *)
+Definition thread_nested (t : thread) : Prop := no_stray_end 0 (concat (t_events t)) = true.
+
+(* threads as the recorder builds them: a name and the chunked recording of an event sequence *)
+Definition threads_of (l : list (str * list tev)) : list thread :=
+  map (fun p => mkThread (fst p) (record_all (snd p))) l.
+
+(* what the theorems ask of a thread's name and recorded events *)
+Definition input_ok (p : str * list tev) : Prop := text_ok (fst p) /\ Forall ev_ok (snd p).
